@@ -11,7 +11,7 @@ for f in ["patch.diff", "demo.diff", "notes.md"] + [os.path.basename(x) for x in
         shutil.copy(f"{O}/{f}", d)
 if os.path.exists(f"/tmp/mutverify_{id_}.log"):
     shutil.copy(f"/tmp/mutverify_{id_}.log", f"{d}/verify.log")
-meta = {"id": id_, "property_broken": id_.split("_")[0],
+meta = {"id": id_, "property_broken": id_.split("_")[0].rstrip("abcdefgh"),
  "origin": "fresh sub-agent given only the property record and a scratch worktree of /repo (nothing from /verif)",
  "what_it_needs_to_manifest": needs,
  "confirmed_by_me": {"where": f"{W} (scratch worktree, since removed)", "compiles": True,
